@@ -385,6 +385,15 @@ class _CaseTimer(object):
         return False
 
 
+def safe_encode(check, data):
+    """The wire form of a case. Some encodings read the library (the tree a parse produced): when that raises, the case still
+    goes to both sides — the driver answers `bad-case`, the implementation side whatever it does — and the oracle judges it."""
+    try:
+        return quiet_call(check.encode, data)
+    except Exception as e:
+        return '(encode-raised %s)' % type(e).__name__
+
+
 def safe_impl(check, data):
     try:
         with _CaseTimer():
@@ -547,7 +556,7 @@ def run_check(check, tier, seed):
         cases.append(c)
     payloads = []
     for c in cases:
-        payloads.append(check.encode(c.data))
+        payloads.append(safe_encode(check, c.data))
     driver_ok = not any(b[0] == 'driver-build' for b in broken)
     model_out = None
     if driver_ok:
@@ -616,7 +625,7 @@ def run_check(check, tier, seed):
         fail2 = safe_oracle(check, small) or fail
         mo = None
         try:
-            mo = run_driver(check.stream, [check.encode(small)])[0] if driver_ok else None
+            mo = run_driver(check.stream, [safe_encode(check, small)])[0] if driver_ok else None
         except Exception:
             pass
         path = write_replay(prop_id, {
@@ -729,7 +738,7 @@ def replay(check, path):
         return 1
     print('case:', json.dumps(data))
     try:
-        mo = run_driver(check.stream, [check.encode(data)])[0]
+        mo = run_driver(check.stream, [safe_encode(check, data)])[0]
     except Exception as e:
         mo = 'driver failed: %s' % e
     io_ = safe_impl(check, data)
